@@ -3,5 +3,6 @@ EXTENDS Decoder
 VARIABLE rec
 (* recorded decode of hostile bytes by the implementation *)
 TraceWork == AcceptableWork(rec)
+TraceIsolated == AcceptableIsolation(rec)
 Dummy == T = <<>> /\ le = TRUE /\ d = <<>>
 ====
